@@ -268,6 +268,7 @@ package check
 //@   ensures[C03] err-propagates: faulted && !old(faulted) ==> lastsent(resultCh).Err != nil || lastsent(resultCh).Membership == checkgroup.IsMember
 //@   loop 1 invariant faulted == old(faulted) && !gerr(g)
 //@   loop 2 invariant !gerr(g)
+//@   loop 2 step[C01] every-listed-subject-set-gets-a-sub-check: istype(t.Subject, *relationtuple.SubjectSet) ==> gadds(g) == athead(gadds(g)) + 1
 
 // =====================================================================================
 // Transport handlers (C08 agreement with the engine, C13 no crash, C17 read-only)
